@@ -528,4 +528,147 @@ theorem every_request_finishes (rate : Nat) (obs : List Obs) (t : Nat) (s : St)
   rw [hidle] at hc
   simpa [St.init, St.idle] using hc
 
+
+/-! ### (ii) each received frame satisfies at most one request -/
+
+/-- Identities of the frames received / returned as responses, in order. -/
+def rxFids : List Obs → List Nat
+  | [] => []
+  | .rx _ _ fid _ _ _ _ :: os => fid :: rxFids os
+  | _ :: os => rxFids os
+
+def okFids : List Obs → List Nat
+  | [] => []
+  | .res _ (.ok fid _ _) :: os => fid :: okFids os
+  | _ :: os => okFids os
+
+private theorem rxFids_append (a b : List Obs) : rxFids (a ++ b) = rxFids a ++ rxFids b := by
+  induction a with
+  | nil => rfl
+  | cons x xs ih => cases x <;> simp [rxFids, ih]
+
+private theorem okFids_append (a b : List Obs) : okFids (a ++ b) = okFids a ++ okFids b := by
+  induction a with
+  | nil => rfl
+  | cons x xs ih =>
+    cases x <;> simp [okFids, ih]
+    rename_i t o; cases o <;> simp [okFids, ih]
+
+private def OnceOk (s : St) (hist : List Obs) : Prop :=
+  (rxFids hist).Nodup →
+    (okFids hist).Nodup ∧ (∀ f ∈ okFids hist, f ∈ rxFids hist) ∧
+    ∀ c, s.conn = some c → ∀ fid n a, c.respW = .got fid n a → fid ∈ rxFids hist ∧ fid ∉ okFids hist
+
+private theorem OnceOk_step (s : St) (hist : List Obs) (o : Obs) (s' : St) (hi : OnceOk s hist)
+    (h : step? s o = some s') : OnceOk s' (hist ++ [o]) := by
+  intro hnd
+  rw [rxFids_append] at hnd
+  have hnd0 : (rxFids hist).Nodup := (List.nodup_append.mp hnd).1
+  obtain ⟨i1, i2, i3⟩ := hi hnd0
+  -- the stored response afterwards, in terms of the state before
+  have hgot : ∀ c', s'.conn = some c' → ∀ fid n a, c'.respW = .got fid n a →
+      (∃ c, s.conn = some c ∧ c.respW = .got fid n a) ∨
+      (∃ t cn, o = .rx t 0 fid (.data n a) true cn n) := by
+    intro c' hc' fid n a hg
+    cases step_respW h hc' with
+    | dead hd => rcases hd with hd | hd | hd <;> rw [hd] at hg <;> simp at hg
+    | keep c hc hk => exact Or.inl ⟨c, hc, by rw [← hk]; exact hg⟩
+    | got c t fid' n' a' cn hc ho hk =>
+      rw [hk] at hg; simp only [RespW.got.injEq] at hg
+      obtain ⟨rfl, rfl, rfl⟩ := hg
+      exact Or.inr ⟨t, cn, ho⟩
+  cases o
+  case res t oc =>
+    cases oc
+    case ok fid n a =>
+      obtain ⟨c, t0, e, hc, _, _, hok⟩ := step_res h
+      obtain ⟨hg, _⟩ := hok fid n a rfl
+      obtain ⟨hin, hnot⟩ := i3 c hc fid n a hg
+      simp only [okFids_append, rxFids_append, okFids, rxFids, List.append_nil]
+      refine ⟨?_, ?_, ?_⟩
+      · rw [List.nodup_append]
+        exact ⟨i1, by simp, by intro x hx y hy; simp at hy; subst hy; intro hxy; subst hxy; exact hnot hx⟩
+      · intro f hf
+        rcases List.mem_append.mp hf with hf | hf
+        · exact i2 f hf
+        · simp at hf; subst hf; exact hin
+      · intro c' hc' fid' n' a' hg'
+        -- after an ok result the waiter is a fresh future
+        cases step_respW h hc' with
+        | dead hd => rcases hd with hd | hd | hd <;> rw [hd] at hg' <;> simp at hg'
+        | keep c2 hc2 hk =>
+          -- not possible: `result_spec` says the waiter is pending after `ok`
+          obtain ⟨s1, h1, h2⟩ := step?_eq_some h
+          simp only [core] at h2
+          unfold onRes at h2; split at h2 <;> (try split at h2) <;> (try split at h2) <;> simp at h2; subst h2
+          rename_i c1 hc1 _ o' c3 hres ho
+          subst ho
+          obtain ⟨_, _, _, _, _, _, _, _, _, _, hok'⟩ := result_spec hres
+          simp at hc'; subst hc'
+          rw [(hok' fid n a rfl).2.2] at hg'; simp at hg'
+        | got c2 t' fid2 n2 a2 cn hc2 ho hk => simp at ho
+    all_goals
+      simp only [okFids_append, rxFids_append, okFids, rxFids, List.append_nil]
+      refine ⟨i1, i2, ?_⟩
+      intro c' hc' fid n a hg
+      rcases hgot c' hc' fid n a hg with ⟨c, hc, hg0⟩ | ⟨t', cn, ho⟩
+      · exact i3 c hc fid n a hg0
+      · simp at ho
+  case rx t src fid0 f hcn cn e =>
+    simp only [okFids_append, rxFids_append, okFids, rxFids, List.append_nil]
+    have hfresh : fid0 ∉ rxFids hist := by
+      intro hmem
+      have := (List.nodup_append.mp hnd).2.2 fid0 hmem fid0 (by simp [rxFids])
+      exact this rfl
+    refine ⟨i1, fun f hf => List.mem_append_left _ (i2 f hf), ?_⟩
+    intro c' hc' fid n a hg
+    rcases hgot c' hc' fid n a hg with ⟨c, hc, hg0⟩ | ⟨t', cn', ho⟩
+    · obtain ⟨h1, h2⟩ := i3 c hc fid n a hg0
+      exact ⟨List.mem_append_left _ h1, h2⟩
+    · simp only [Obs.rx.injEq] at ho
+      obtain ⟨_, _, rfl, _⟩ := ho
+      exact ⟨by simp, fun hmem => hfresh (i2 _ hmem)⟩
+  all_goals
+    simp only [okFids_append, rxFids_append, okFids, rxFids, List.append_nil]
+    refine ⟨i1, i2, ?_⟩
+    intro c' hc' fid n a hg
+    rcases hgot c' hc' fid n a hg with ⟨c, hc, hg0⟩ | ⟨t', cn, ho⟩
+    · exact i3 c hc fid n a hg0
+    · simp at ho
+
+/-- (ii) On every accepted run in which the received frames are distinct objects, no frame is returned
+by two requests, and every returned frame is one that was received. -/
+theorem responses_used_once (rate : Nat) (obs : List Obs) (s : St)
+    (h : run? (St.init rate) obs = some s) (hnd : (rxFids obs).Nodup) :
+    (okFids obs).Nodup ∧ ∀ f ∈ okFids obs, f ∈ rxFids obs := by
+  have := run?_hist_inv OnceOk OnceOk_step obs (St.init rate) [] s
+    (by intro _; exact ⟨by simp [okFids], by simp [okFids], by intro c hc; simp [St.init] at hc⟩) h
+  simp only [List.nil_append] at this
+  exact ⟨(this hnd).1, (this hnd).2.1⟩
+
+/-! ### Non-vacuity: concrete accepted runs that exercise the hypotheses -/
+
+/-- clean exchange, then a repeated telegram, a duplicate ACK, an old data frame (acknowledged, not
+delivered), a stranger's T_Connect (refused), disconnect by the peer. -/
+def demo : List Obs :=
+  [.opened 0 true, .req 0 1 1, .txData 0 0 1, .rx 0 0 3 (.ack 0) true true 0,
+   .rx 0 0 4 (.data 0 1) true true 0, .res 0 (.ok 4 0 1), .txAck 0 0 0,
+   .req 5 1 1, .txData 5 1 1, .txData (5 + ACK) 1 1, .rx (6 + ACK) 0 9 (.ack 1) true true 1,
+   .rx (6 + ACK) 0 10 (.ack 1) true true 1, .rx (6 + ACK) 0 11 (.data 0 1) true true 1, .txAck (6 + ACK) 0 0,
+   .rx (7 + ACK) 3 12 .connect false false 0, .txDisc (7 + ACK) 3,
+   .rx (8 + ACK) 0 13 .disconnect true true 1, .res (8 + ACK) .refused, .closed (9 + ACK) 1, .fin (9 + ACK)]
+
+example : (run? (St.init 0) demo).isSome = true := by decide
+example : dataNumbers demo = [0, 1, 1] ∧ okFids demo = [4] ∧ acksSent demo = [(0, 0), (0, 0)] := by decide
+example : (rxFids demo).Nodup := by decide
+example : SameConnection (demo.drop 1 |>.take 17) := by
+  intro o ho; simp [demo] at ho; rcases ho with h | h | h | h | h | h | h | h | h | h | h | h | h | h | h | h | h <;>
+    subst h <;> simp
+/-- The pre-fix behaviours are excluded by the model: a second T_ACK on a done waiter would raise in the
+pinned code; here it is ignored. -/
+example : (Conn.process { Conn.fresh with ackW := .acked false 0 } 1 (.ack 0)) =
+    .ok { Conn.fresh with ackW := .acked false 0 } := by decide
+example : ∀ w : AckW, w ≠ .pending → w.setResult false 0 = .error .invalidState := by
+  intro w h; cases w <;> simp_all [AckW.setResult]
+
 end XknxVerif.Props.C43
